@@ -2460,10 +2460,25 @@ func newRepo(uuid dvid.UUID, v dvid.VersionID, id dvid.RepoID, passcode string) 
 	return repo
 }
 
+// branchHeads recomputes the branch heads the way they are tracked while the server
+// runs: the head of a branch is the last node made on it by a new-version or branch
+// request, i.e. the non-merge node of that branch without a non-merge child on the
+// same branch (merges never move a head; a head may well have children on other branches).
 func (r *repoT) branchHeads() map[string]dvid.UUID {
 	branchToUUID := make(map[string]dvid.UUID)
 	for _, node := range r.dag.nodes {
-		if len(node.children) == 0 {
+		if len(node.parents) > 1 {
+			continue
+		}
+		head := true
+		for _, childV := range node.children {
+			child, found := r.dag.nodes[childV]
+			if found && len(child.parents) <= 1 && child.branch == node.branch {
+				head = false
+				break
+			}
+		}
+		if head {
 			branchToUUID[node.branch] = node.uuid
 		}
 	}
